@@ -93,6 +93,8 @@ def run(rep):
     rep.units.append("drivers/io_driver.cpp + drivers/c12_driver.cpp: %d instantiated I/O functions" % len(fns))
     rep.trusted += ["clang front end (instantiated AST)", "harness/ast/rules.py (structured dominance)"]
     short_reads(rep, fns)
+    from .p13 import checked_integer_reads
+    checked_integer_reads(rep, fns, "R1c", "R1c-checked-read")
     fixed_buffers(rep, fns)
     jmp_typestate(rep, fns)
     run_bounds(rep, fns)
